@@ -29,18 +29,45 @@ theorem mbi_delimits {co : Crypto.CryptoOps} {env : Mbi.Env} {c : Mbi.Cls} {cfg 
     parseSeg ext fcbSup s (e ++ []) = .present e :=
   Bimg.mbi_delimits' h fixedType family dek hdek hdek' e he hne hsel ext fcbSup s hp hsz hext
 
-/-- HAB: `HabContainer.parse` accepts every exported container whose application its offset heuristic finds (`hvis`,
-    inherited from C07 `hab_roundtrip_partial`; full strength is false there: finding C07-parse-app-offset-guess) -/
+/-- HAB: `HabContainer.parse` accepts every exported container under the hypotheses of C07 `hab_roundtrip_partial` (inherited
+    as they stand there: well-formed configuration, CSF conditions, and for unsigned images `hvis`: the application-offset
+    heuristic finds the application - full strength is false, finding C07-parse-app-offset-guess) -/
 theorem hab_delimits_partial (c : Hab.Cfg) (b : Hab.Built) (h : c.WF)
     (hd : ∀ d, c.dcd = some d → Hab.DcdWF d) (hx : ∀ x, c.xmcd = some x → Hab.XmcdWF x)
     (happ : b.app.length = c.appBin.length)
-    (hc : c.hasCsf = true → Hab.CsfWF c.version b.cmds ∧ (Hab.getAut 2 b.cmds).isSome = Hab.isEnc c.flags)
-    (hvis : Hab.findAppOffset (Hab.exportImage c b) c.entry Generated.HabConsts.knownAppOffsets = some c.appOff)
+    (hc : c.hasCsf = true → Hab.CsfWF c.version b.cmds ∧ (Hab.getAut 2 b.cmds).isSome = Hab.isEnc c.flags ∧
+      Hab.csfAppBlock b.cmds = some (c.start + c.ivtOff + c.appOff, c.appBin.length))
+    (hvis : c.hasCsf = false → Hab.findAppOffset (Hab.exportImage c b) c.entry Generated.HabConsts.knownAppOffsets = some c.appOff)
     (hne : Hab.exportImage c b ≠ [])
     (ext : Ext) (fcbSup : Bool) (s : Seg) (hp : s.parser = .greedy) (hsz : s.size < 0)
     (hext : ∀ data, ext.app s.kind data = habApp data) :
     parseSeg ext fcbSup s (Hab.exportImage c b ++ []) = .present (Hab.exportImage c b) :=
-  Bimg.hab_delimits_partial' c b h hd hx happ hc hvis hne ext fcbSup s hp hsz hext
+  Bimg.hab_delimits_of_roundtrip' c b _ (SpsdkVerif.C07.hab_roundtrip_partial c b h hd hx happ hc hvis) hne ext fcbSup s hp hsz hext
+
+/-- MBI rows end to end: with the container parser given by the C01 model, parsing the exported image recovers every supplied
+    segment for every init offset; the hypotheses speak about the supplied bytes only (see Proofs/BimgDelimit.lean) -/
+theorem parse_export_mbi_row {co : Crypto.CryptoOps} {env : Mbi.Env} {c : Mbi.Cls} {cfg : Mbi.Cfg} {signer : Mbi.Signer}
+    (hm : Mbi.Hyp co env c cfg signer) (fixedType : Int) (family : List Mbi.Cls) (dek : Option Bytes)
+    (hdek : c.has .Mbi_MixinHmac = true → dek = cfg.hmacKey) (hdek' : c.family = some .encrypted → dek = cfg.hmacKey)
+    (e : Bytes) (he : Mbi.exportImage co c cfg signer = .ok e)
+    (hsel : Mbi.selectClass fixedType family e = some c)
+    (ext : Ext) (fcbSup : Bool) (d : Desc) (init : Nat) (raws : List (Option Bytes))
+    (h : Ctx d init raws) (hsup : Supplied init (mkSlots d.segs raws))
+    (hkinds : ∀ s ∈ mkSlots d.segs raws, s.seg.parser = .raw ∨ s.seg.parser = .imageVersion ∨ s.seg.parser = .imageVersionAp ∨
+      s.seg.parser = .fcb ∨ s.seg.parser = .greedy)
+    (hext : ∀ s ∈ mkSlots d.segs raws, s.seg.parser = .greedy → ∀ data, ext.app s.seg.kind data = mbiApp co env fixedType family dek data)
+    (hraw : ∀ s ∈ mkSlots d.segs raws, s.present init = true → s.seg.parser = .raw →
+      (s.bytes.length : Int) = s.seg.size ∧ isPadding s.seg s.bytes = false)
+    (hiv : ∀ s ∈ mkSlots d.segs raws, s.present init = true →
+      (s.seg.parser = .imageVersion ∨ s.seg.parser = .imageVersionAp) → s.bytes.length = 4)
+    (hfcb : ∀ s ∈ mkSlots d.segs raws, s.present init = true → s.seg.parser = .fcb →
+      (s.bytes.length : Int) = s.seg.size ∧
+      (s.bytes.take 4 = BimgTables.fcbTag ∨ s.bytes.take 4 = BimgTables.fcbTagSwapped) ∧
+      (fcbSup = true → ext.fcbOk s.bytes = true) ∧ (fcbSup = false → isPadding s.seg s.bytes = false))
+    (hmbi : ∀ s ∈ mkSlots d.segs raws, s.present init = true → s.seg.parser = .greedy → s.bytes = e)
+    (b : Bytes) (hb : exportImg d init raws = .ok b) :
+    walk ext fcbSup init d.segs b = .ok (expectedFound init (mkSlots d.segs raws)) :=
+  Bimg.parse_export_mbi_row' hm fixedType family dek hdek hdek' e he hsel ext fcbSup d init raws h hsup hkinds hext hraw hiv hfcb hmbi b hb
 
 /-- SB3.1: a file that begins with an encoded header (fields in range) passes the header validation, whatever follows
     (header reader of the C05 ROM model) -/
